@@ -3075,6 +3075,19 @@ type Linker func(
 	dataForSourceMaps func() []DataForSourceMap,
 ) []graph.OutputFile
 
+// This returns true if the given absolute path is one of the files in the "file"
+// namespace that was scanned for this bundle (even if the scan reported errors)
+func (b *Bundle) ContainsInputFile(absPath string) bool {
+	key := canonicalFileSystemPathForWindows(b.fs.Join(absPath))
+	for _, file := range b.files {
+		if keyPath := file.inputFile.Source.KeyPath; keyPath.Namespace == "file" &&
+			canonicalFileSystemPathForWindows(b.fs.Join(keyPath.Text)) == key {
+			return true
+		}
+	}
+	return false
+}
+
 func (b *Bundle) Compile(log logger.Log, timer *helpers.Timer, mangleCache map[string]interface{}, link Linker) ([]graph.OutputFile, string) {
 	timer.Begin("Compile phase")
 	defer timer.End("Compile phase")
